@@ -6,6 +6,7 @@ from typing import Callable, Dict, List
 from . import rules_algebra as RA
 from . import rules_kernels as RK
 from . import rules_poly as RP
+from . import rules_shapes as RS
 from .report import Ctx
 
 TRUSTED = [
@@ -106,6 +107,23 @@ def c12(ctx: Ctx) -> None:
     RP.rule_lp_bounds(ctx)
 
 
+def c19(ctx: Ctx) -> None:
+    RS.rule_eq(ctx)
+    RS.rule_hash(ctx)
+    RS.rule_copy(ctx)
+    RK.rule_term_kernels(ctx, ["copy"])
+
+
+def c17(ctx: Ctx) -> None:
+    RS.rule_nested_contains(ctx)
+    RS.rule_nested_le(ctx)
+    RS.rule_nested_intersect(ctx)
+    RS.rule_nested_ctor(ctx)
+    RS.rule_compound_merge(ctx)
+    RS.rule_eq(ctx)
+    RP.rule_status_table(ctx, RP.PTL + "is_polytope_empty")
+
+
 def c03(ctx: Ctx) -> None:
     P = RP.PTL
     RP.rule_refines_order(ctx)
@@ -143,7 +161,7 @@ def run_property(ctx: Ctx) -> None:
     spec = PROPS[ctx.prop]
     spec["fn"](ctx)
 
-_tmp = {"C01": c01, "C02": c02, "C03": c03, "C04": c04, "C06": c06, "C07": c07, "C08": c08, "C11": c11, "C12": c12, "C15": c15, "C16": c16}
+_tmp = {"C01": c01, "C02": c02, "C03": c03, "C04": c04, "C06": c06, "C07": c07, "C08": c08, "C11": c11, "C12": c12, "C15": c15, "C16": c16, "C17": c17, "C19": c19}
 for _k, _f in _tmp.items():
     PROPS[_k] = {"fn": _f, "level": "other", "explanation": "tbd", "assumptions": []}
 
